@@ -78,6 +78,29 @@ Section TlruBridge.
   Ltac callee L := let P := fresh "P" in pose proof L as P; unfold req in P; revert P.
   Ltac finish := intros; clean; subst; try contradiction; try congruence; auto; try arith.
 
+  (* the lookup in the index, split on what it MEANS (assoc k (tt_index s)), not on how the source spells the test
+     against end(): both orientations of the generated `if` (negated or not, then/else swapped) reduce *)
+  Ltac found k s idx A :=
+    unfold mit_find, mit_second;
+    destruct (assoc k (tt_index s)) as [idx|] eqn:A; cbn [mit_eqb negb]; rewrite ?A; cbn [bind].
+  (* the comparisons of time points, as propositions: `now < t`, `!(now >= t)`, `t <= now` under either orientation
+     of the `if` all end in the same two cases; the contradictory combinations are closed by lia *)
+  Ltac zcases :=
+    rewrite ?Z.geb_leb, ?Z.gtb_ltb;
+    repeat match goal with
+           | |- context [(?a <? ?b)%Z] => destruct (Z.ltb_spec a b)
+           | |- context [(?a <=? ?b)%Z] => destruct (Z.leb_spec a b)
+           | |- context [(?a =? ?b)%Z] => destruct (Z.eqb_spec a b)
+           end; cbn [negb andb orb]; try (exfalso; lia).
+
+  (* the same for the comparisons of sizes (m_used_size > 0, == 0, != 0, < 1 ...) *)
+  Ltac ncases :=
+    repeat match goal with
+           | |- context [?a <? ?b] => destruct (Nat.ltb_spec a b)
+           | |- context [?a <=? ?b] => destruct (Nat.leb_spec a b)
+           | |- context [?a =? ?b] => destruct (Nat.eqb_spec a b)
+           end; cbn [negb andb orb]; try (exfalso; lia).
+
   Lemma g_do_access_ok (s : ttll K V) (i : nat) :
     req (g_do_access s i) (do e <- vget "m_elements[element_idx]" (tt_elems s) i; tt_access s e).
   Proof. unfold g_do_access, tt_access, vget, bind, set_tt_list, with_list. crush. Qed.
@@ -91,14 +114,17 @@ Section TlruBridge.
 
   Lemma g_do_prune_ok (s : ttll K V) now : req (g_do_prune s now) (tt_do_prune false s now).
   Proof.
-    unfold g_do_prune, tt_do_prune. same_cond.
-    destruct (0 <? tt_used s); [|simpl; auto].
+    unfold g_do_prune, tt_do_prune.
+    ncases; [|simpl; auto].
     destruct (tt_ord s) as [|[z idx] r] eqn:O; [simpl; auto|].
-    unfold mm_it_first, mm_it_second. rewrite mm_begin_cons. cbn [bind fst snd].
-    destruct (z <=? now)%Z.
-    - callee (g_do_erase_ok s idx). unfold bind. crush; finish.
-    - destruct (l_back (tt_list s)) as [b|]; [|simpl; auto]. cbn [bind].
-      callee (g_do_erase_ok s b). unfold bind. crush; finish.
+    unfold mm_it_first, mm_it_second. rewrite !mm_begin_cons. cbn [bind fst snd].
+    zcases;
+      match goal with
+      | _ : (z <= now)%Z |- _ => callee (g_do_erase_ok s idx); unfold bind; crush; finish
+      | _ : (now < z)%Z |- _ =>
+          destruct (l_back (tt_list s)) as [b|]; [|simpl; auto]; cbn [bind];
+          callee (g_do_erase_ok s b); unfold bind; crush; finish
+      end.
   Qed.
 
   Lemma index_erase_keeps_absent (ix ix' : list (K * nat)) it k :
@@ -190,22 +216,21 @@ Section TlruBridge.
     revert P. unfold req, bind. crush; finish.
   Qed.
 
-  Lemma mit_find_some (ix : list (K * nat)) k : negb (mit_eqb (mit_find ix k) None) = match assoc k ix with Some _ => true | None => false end.
-  Proof. unfold mit_find. destruct (assoc k ix); reflexivity. Qed.
-
   Lemma g_do_insert_update_ok (s : ttll K V) k v now ex a :
     req (g_do_insert_update s k v now ex a) (tt_ins false s k v a now ex).
   Proof.
-    unfold g_do_insert_update, tt_ins. rewrite mit_find_some. unfold mit_find.
-    destruct (assoc k (tt_index s)) as [idx|] eqn:A.
-    - destruct (a_upd a).
+    unfold g_do_insert_update, tt_ins. found k s idx A.
+    - destruct (a_upd a); cbn [negb].
       + callee (g_do_update_ok s k idx v ex A). unfold bind. crush; finish.
-      + destruct (a_ins a); [|simpl; auto].
-        unfold mit_second. rewrite A. cbn [bind]. unfold vref, vget.
-        destruct (nth_error (tt_elems s) idx) as [e0|] eqn:N; [|simpl; auto]. cbn [bind]. rewrite N. cbn [bind].
-        destruct (te_expire e0 <=? now)%Z; [|simpl; auto].
-        callee (g_do_update_ok s k idx v ex A). unfold bind. crush; finish.
-    - destruct (a_ins a); [|simpl; auto].
+      + destruct (a_ins a); cbn [negb]; [|simpl; auto].
+        unfold vref, vget.
+        destruct (nth_error (tt_elems s) idx) as [e0|] eqn:N; [|simpl; auto]. cbn [bind]. rewrite ?N. cbn [bind].
+        zcases;
+          match goal with
+          | _ : (te_expire e0 <= now)%Z |- _ => callee (g_do_update_ok s k idx v ex A); unfold bind; crush; finish
+          | _ : (now < te_expire e0)%Z |- _ => simpl; auto
+          end.
+    - destruct (a_ins a); cbn [negb]; [|simpl; auto].
       callee (g_do_insert_ok s k v now ex A). unfold bind. crush; finish.
   Qed.
 
@@ -214,23 +239,25 @@ Section TlruBridge.
 
   Lemma g_do_find_ok (s : ttll K V) k now pk : req (g_do_find s k now pk) (tt_find s k pk now).
   Proof.
-    unfold g_do_find, tt_find. rewrite mit_find_some. unfold mit_find, mit_second.
-    destruct (assoc k (tt_index s)) as [idx|] eqn:A; [|simpl; auto]. rewrite A. cbn [bind].
+    unfold g_do_find, tt_find. found k s idx A; [|simpl; auto].
     pose proof (g_do_access_ok s idx) as P. revert P.
-    unfold vref, vget. destruct (nth_error (tt_elems s) idx) as [e0|] eqn:N; [|simpl; auto]. cbn [bind]. rewrite N. cbn [bind].
-    destruct (now <? te_expire e0)%Z.
-    - destruct pk; cbn [Bool.eqb]; cbn [bind].
-      + intros _. rewrite N. simpl. auto.
-      + unfold req, bind.
-        destruct (g_do_access s idx) as [s1|] eqn:G, (tt_access s e0) as [s2|] eqn:L; intros P; try contradiction; auto.
-        subst s2. rewrite (tt_access_elems _ _ _ L), N. auto.
-    - intros _. callee (g_do_erase_ok s idx). unfold bind. crush; finish.
+    unfold vref, vget. destruct (nth_error (tt_elems s) idx) as [e0|] eqn:N; [|simpl; auto]. cbn [bind]. rewrite ?N. cbn [bind].
+    zcases;
+      match goal with
+      | _ : (now < te_expire e0)%Z |- _ => (* alive *)
+          destruct pk; cbn [Bool.eqb negb bind];
+          [ intros _; rewrite N; simpl; auto
+          | unfold req, bind;
+            destruct (g_do_access s idx) as [s1|] eqn:G, (tt_access s e0) as [s2|] eqn:L; intros P; try contradiction; auto;
+            subst s2; rewrite (tt_access_elems _ _ _ L), N; auto ]
+      | _ : (te_expire e0 <= now)%Z |- _ => (* expired *)
+          intros _; callee (g_do_erase_ok s idx); unfold bind; crush; finish
+      end.
   Qed.
 
   Lemma g_erase_ok (s : ttll K V) k : req (g_erase s k) (tt_erase s k).
   Proof.
-    unfold g_erase, tt_erase. rewrite mit_find_some. unfold mit_find, mit_second.
-    destruct (assoc k (tt_index s)) as [idx|] eqn:A; [|simpl; auto]. rewrite A. cbn [bind].
+    unfold g_erase, tt_erase. found k s idx A; [|simpl; auto].
     callee (g_do_erase_ok s idx). unfold bind. crush; finish.
   Qed.
 
@@ -255,9 +282,8 @@ Section TlruBridge.
     match goal with |- req (bind (foldM ?F _ _) _) _ =>
       assert (G : forall l s n, req (foldM F l (s, n)) (tt_erase_range s l n)) end.
     { clear. induction l as [|k r IH]; intros s n; simpl; auto.
-      rewrite mit_find_some. unfold tt_erase, mit_find, mit_second.
-      destruct (assoc k (tt_index s)) as [idx|] eqn:A; cbn [bind]; [|apply IH].
-      rewrite A. cbn [bind]. callee (g_do_erase_ok s idx).
+      unfold tt_erase. found k s idx A; [|apply IH].
+      callee (g_do_erase_ok s idx).
       destruct (g_do_erase s idx) as [s1|], (tt_do_erase s idx) as [s2|]; cbn [bind]; intros P; try contradiction; auto.
       subst. rewrite ?Nat.add_1_r. apply IH. }
     specialize (G l s 0). revert G.
